@@ -38,6 +38,10 @@ type c04prog struct {
 	PreFill int       `json:"prefill"`
 	Procs   [][]c04op `json:"procs"`
 	KillAt  []int     `json:"kill_at"` // per process: kill when it has made this many yields (0 = never)
+	// Sat: Names[0] starts Base below 2^64-1, so that the first increments
+	// saturate it (values never wrap, not even for an instant)
+	Sat  bool   `json:"sat,omitempty"`
+	Base uint64 `json:"base,omitempty"`
 }
 
 type c04proc struct {
@@ -66,6 +70,15 @@ type c04env struct {
 	violData []byte
 	checks   int
 	sched    *verifrt.Sched
+	base     map[string]uint64 // value written before the schedule started
+}
+
+// satAdd is the documented arithmetic of counter values: sums saturate.
+func satAdd(a, b uint64) uint64 {
+	if a+b < a {
+		return ^uint64(0)
+	}
+	return a + b
 }
 
 func (e *c04env) violate(sig, msg string) {
@@ -136,6 +149,10 @@ func (e *c04env) check(final bool) {
 			done[e.prog.Names[i]] += v
 		}
 	}
+	for n, b := range e.base {
+		begun[n] = satAdd(b, begun[n])
+		done[n] = satAdd(b, done[n])
+	}
 	seen := map[string]bool{}
 	for _, rec := range cf.Records {
 		seen[rec.Name] = true
@@ -171,7 +188,7 @@ func (e *c04env) check(final bool) {
 		for n, b := range begun {
 			d := done[n]
 			v := vals[n]
-			if v+pend[n] < d || v > b {
+			if satAdd(v, pend[n]) < d || v > b {
 				e.violate("lost-or-extra", fmt.Sprintf("counter %q: value %d (+%d pending in survivors); completed adds %d, begun %d", trunc40(n), v, pend[n], d, b))
 			}
 		}
@@ -206,7 +223,13 @@ func collidingNames(r *verifrt.Rand, k int, length int) []string {
 func c04Program(r *verifrt.Rand, kind int) c04prog {
 	p := c04prog{}
 	np := 2 + r.Intn(3)
-	switch kind % 7 {
+	switch kind % 8 {
+	case 7:
+		// a counter two increments away from the largest value: sums saturate
+		p.Name = "saturating"
+		p.Names = []string{"sat/counter", "sat/other"}
+		p.Sat = true
+		p.Base = ^uint64(0) - 1 - uint64(r.Intn(7))
 	case 6:
 		// a hash chain whose every record needs a new page: a process that
 		// re-maps because of one of them meets the next one beyond its new
@@ -256,10 +279,14 @@ func c04Program(r *verifrt.Rand, kind int) c04prog {
 		}
 		for k, n := 0, 1+r.Intn(3); k < n; k++ {
 			kind := "add"
-			if r.Intn(3) == 0 {
+			if r.Intn(3) == 0 && !p.Sat { // (the harness's own raw add does not saturate)
 				kind = "raw"
 			}
-			ops = append(ops, c04op{Kind: kind, Name: r.Intn(len(p.Names)), N: uint64(1 + r.Intn(5))})
+			name := r.Intn(len(p.Names))
+			if p.Sat && r.Intn(4) != 0 {
+				name = 0
+			}
+			ops = append(ops, c04op{Kind: kind, Name: name, N: uint64(1 + r.Intn(5))})
 		}
 		p.Procs = append(p.Procs, ops)
 	}
@@ -298,6 +325,14 @@ func runC04(res *verifrt.Result, base string, p c04prog, st c03strategy, rnd *ve
 		for i := 0; i < p.PreFill; i++ {
 			c := &Counter{name: fmt.Sprintf("fill/%d/", i) + strings.Repeat("f", 3900), file: filler}
 			c.Add(1)
+		}
+		if p.Sat {
+			c := &Counter{name: p.Names[0], file: filler}
+			c.Add(1) // (obtains the record pointer: amounts held in memory are capped at 2^33-1)
+			c.Add(1<<63 - 1)
+			c.Add(int64(p.Base - (1<<63 - 1) - 1))
+			e.base = map[string]uint64{p.Names[0]: p.Base}
+			res.Hit("saturating-base-written")
 		}
 		if p.Name == "page-tail" {
 			// Make the first name fill its page exactly: under the layout rules such a
@@ -606,7 +641,7 @@ func TestVerifC04(t *testing.T) {
 			e.close()
 		}
 	})
-	res.Require("remap-twice-pattern", "program:colliding-big", "program:same-name", "program:colliding-names", "program:extend-race", "program:page-tail", "program:concurrent-create", "schedule-with-kill", "strategy:pct", "strategy:park")
+	res.Require("saturating-base-written", "program:saturating", "remap-twice-pattern", "program:colliding-big", "program:same-name", "program:colliding-names", "program:extend-race", "program:page-tail", "program:concurrent-create", "schedule-with-kill", "strategy:pct", "strategy:park")
 	if err := res.Write(); err != nil {
 		t.Fatal(err)
 	}
